@@ -31,6 +31,7 @@ class Obl:
     note: str = ""
     only: str = ""          # regex: of the harness's own OBS assertions, only these belong to this property
     confirm: str = ""       # confirmation harness run when only INT (representation) assertions fail
+    mem_gb: int = 0         # estimated peak memory of the CBMC run (heavy ones are run with fewer jobs)
 
 
 def _c01() -> List[Obl]:
@@ -239,7 +240,7 @@ def _c13() -> List[Obl]:
             for st in ("owned", "borrowed"):
                 tier = "quick" if w == "u8" else "thorough"
                 out.append(Obl(id=f"c13.writer_vec.{w}.len{ln}.{st}", prop="C13", engine="kani", target=f"obl_c13::{w}_::writer_vec_len{ln}_{st}", tier=tier,
-                               kind="bounded", bound=f"vector of length {ln} ({st} storage); contents, cursor and operation symbolic",
+                               mem_gb={"u32": 5, "u64": 10, "u128": 30}.get(w, 0), kind="bounded", bound=f"vector of length {ln} ({st} storage); contents, cursor and operation symbolic",
                                fns=["MemWordWriterVec::{new,len,is_empty,read_word,write_word,flush,word_pos,set_word_pos,into_inner}"]))
     return out
 
